@@ -55,6 +55,9 @@ checks = {
  "C03": ("E3", E3,
    "Every list over 3 symbols up to length 4 (thorough 5) plus nil, for int, string and struct elements, each allocated with spare capacity filled with a sentinel; every count / size in [-3, len+3]; predicate family {true, false, even, ==1, index<2, nil}; all pairs of lists up to length 3 for the binary helpers (with a second call on the same input to expose shared backing arrays); all 27 partial maps {0,1,2}->{0,1} and all pairs of them; all lists for Min/Max/MinMax; all (lower, higher, hop) in [-3,4]^3 for Range. Each of the ~45 helpers is compared with a reference definition written from its doc comment; inputs must be byte-for-byte unchanged (including the spare capacity), results must not contain the sentinel, nothing may panic.",
    "Finite alphabets; documented-undefined corners (non-positive counts, empty operands of IsEqual/IsEqualMap/IsDistinct) only checked for no-panic / inputs unchanged / contiguous sub-sequence.", "DESIGN.md §4, §5 C03"),
+ "C04": ("E2", E2,
+   "Breadth-first search over all programs up to depth 3 (thorough 4) whose steps apply any of 25 stream operations (13 set operations, 5 stream-set operations + the nested in-place Remove) to any live collection of a growing pool with any live collection as argument (indices -1/0/1/2/100 for Remove), for both families; after every step every live collection is re-observed (ToArray / Keys / contents, Len, Get, Contains, ToArray detached) and must equal its model; the documented in-place mutators update the model object in place; states are de-duplicated on contents + object identity + backing-array sharing + spare capacity of the whole pool.",
+   "Bounded program depth and pool; constructors adopt their argument; interface{} sets compared by key (that family stores its own placeholder values).", "DESIGN.md §3, §5 C04"),
 }
 
 not_yet = "check not built yet in this round (see DESIGN.md §9 build order); no claim made"
